@@ -61,6 +61,14 @@ def linear_system(rng, n, names, nlines):
         a = [coef(rng) for _ in range(n)]
         if not any(a): a[rng.randrange(n)] = rng.choice([1.0, -2.0])
         b = rng.choice([0.0, 1.0, -3.0, 2.5, 7.0, -0.5])
+        if n >= 2 and rng.random() < 0.2:
+            # ordering / balance constraints: homogeneous lines whose coefficients sum to zero (xi - xj CMP 0, 2*xi - xj - xk CMP 0)
+            a = [0.0] * n
+            idx = rng.sample(range(n), rng.choice([2, 2, 3]) if n >= 3 else 2)
+            c0 = rng.choice([1.0, -1.0, 2.0, -2.0, 0.5])
+            a[idx[0]] = c0
+            for j in idx[1:]: a[j] = -c0 / (len(idx) - 1)
+            b = 0.0
         cmp = rng.choice(CMPS)
         terms = ' + '.join('%s*%s' % (fmt(c), v) for c, v in zip(a, names) if c != 0)
         # move some terms to the right-hand side to exercise both sides
@@ -388,10 +396,15 @@ def run_exact(rng, obs):
         for _ in range(rng.randint(1, min(3, n + 1))):
             a = [rng.choice(C) if rng.random() < 0.7 else 0.0 for _ in range(n)]
             if not any(a): a[rng.randrange(n)] = rng.choice(C)
+            homogeneous = n >= 2 and rng.random() < 0.25
+            if homogeneous:          # xi - xj CMP 0 and the like: coefficients summing to zero, no constant
+                a = [0.0] * n
+                i0, j0 = rng.sample(range(n), 2)
+                c0 = rng.choice([1.0, -1.0, 2.0, -2.0, 0.5, -4.0]); a[i0], a[j0] = c0, -c0
             key = tuple(c / next(v for v in a if v) for c in a)        # lines over one and the same (scaled) expression are the business of the mirror classes
             if key in used: continue
             used.add(key)
-            b = rng.choice([0.0, 1.0, -3.0, 2.5, 0.5, -0.5, 6.0])
+            b = 0.0 if homogeneous else rng.choice([0.0, 1.0, -3.0, 2.5, 0.5, -0.5, 6.0])
             lines.append('%s %s %s' % (' + '.join('%s*%s' % (fmt(c), v) for c, v in zip(a, names) if c != 0), rng.choice(['<', '>', '<=', '>=', '<', '>']), fmt(b)))
     else:
         i, j = rng.sample(range(n), 2)
